@@ -184,11 +184,30 @@ def inventory(base):
     return inv
 
 
+def temp_stem(name):
+    """the part of a file name that FsCommand::temp_file keeps: names longer than 230 bytes are cut at a character boundary
+    (the suffix .<24 alnum> adds 25 bytes, NAME_MAX is 255)"""
+    b = name.encode("utf-8", "surrogateescape") if isinstance(name, str) else name
+    if len(b) <= 230:
+        return name
+    cut = 230
+    while cut > 0 and (b[cut] & 0xC0) == 0x80:
+        cut -= 1
+    return b[:cut].decode("utf-8", "surrogateescape") if isinstance(name, str) else b[:cut]
+
+
 def canon_temp(path, victims):
-    """<victim>.<24 alnum>  ->  <victim>.tmp~"""
+    """<victim>.<24 alnum>  ->  <victim>.tmp~   (<stem of a long victim name>.<24 alnum> -> that victim's .tmp~)"""
     m = TEMP_RE.match(path)
     if m and m.group(1) in victims:
         return m.group(1) + TMP_SFX
+    if m:
+        d, stem = os.path.split(m.group(1))
+        if len(stem.encode("utf-8", "surrogateescape")) >= 200:
+            for v in victims:
+                vd, vn = os.path.split(v)
+                if vd == d and temp_stem(vn) == stem and vn != stem:
+                    return v + TMP_SFX
     return path
 
 
